@@ -2,9 +2,9 @@
 # usage: reeval5.sh cNN "k1 k2"
 w=$1; P=$(echo $w | tr c C)
 for k in $2; do
-  cp /tmp/seed5-$w/eval_$k.json /tmp/seed5-$w/eval_$k.first.json
-  timeout 3000 python3 /verif/tools/seed_eval.py /tmp/seed5-$w $k $P --skip-suite > /tmp/seed5-$w/reeval_$k.log 2>&1
-  python3 - /tmp/seed5-$w $k <<'PY'
+  cp /tmp/seed${ROUND:-5}-$w/eval_$k.json /tmp/seed${ROUND:-5}-$w/eval_$k.first.json
+  timeout 3000 python3 /verif/tools/seed_eval.py /tmp/seed${ROUND:-5}-$w $k $P --skip-suite > /tmp/seed${ROUND:-5}-$w/reeval_$k.log 2>&1
+  python3 - /tmp/seed${ROUND:-5}-$w $k <<'PY'
 import json,sys
 wt,k=sys.argv[1:3]
 first=json.load(open(f"{wt}/eval_{k}.first.json")); new=json.load(open(f"{wt}/eval_{k}.json"))
